@@ -133,7 +133,8 @@ func importForeign(def importDef, input antlr.CharStream, fs afero.Fs) (out antl
 		}
 		imp, err = imp.Configure(&importer.ImporterArg{AppName: def.appname, PackageName: def.pkg, Imports: ""})
 		if err != nil {
-			return nil, syslutil.Exitf(ParseError, "%s", err.Error())
+			// (for instance "application name not provided", when the import statement has no "as": say which import)
+			return nil, syslutil.Exitf(ParseError, "%s", fmt.Sprintf("%s cannot be imported: %s", fileName, err))
 		}
 		if withFs, ok := imp.(interface{ WithFs(afero.Fs) }); ok && fs != nil {
 			withFs.WithFs(fs)
